@@ -246,7 +246,46 @@ func genL2(r *rng.R, g *qgen.G, seeds []string) (*l2Case, bool) {
 		c.Args = append(c.Args, arg)
 	}
 	if r.Chance(1, 5) {
-		switch r.Intn(12) {
+		switch r.Intn(14) {
+		case 12, 13:
+			// a foreign type with the same name IN ADDITION to the needed argument
+			for _, a := range c.Args {
+				t := reflect.TypeOf(a)
+				form := 0
+				for t.Kind() == reflect.Pointer || (t.Kind() == reflect.Slice && t.Name() == "") {
+					if t.Kind() == reflect.Slice {
+						form = 1
+						if t.Elem().Kind() == reflect.Pointer {
+							form = 2
+						}
+					}
+					t = t.Elem()
+				}
+				if st, ok := zoo.Shadows[t.Name()]; ok && t != st {
+					var extra any
+					switch form {
+					case 1:
+						extra = reflect.MakeSlice(reflect.SliceOf(st), 1, 1).Interface()
+					case 2:
+						sl := reflect.MakeSlice(reflect.SliceOf(reflect.PointerTo(st)), 1, 1)
+						sl.Index(0).Set(reflect.New(st))
+						extra = sl.Interface()
+					default:
+						v := reflect.New(st).Elem()
+						if st.Kind() == reflect.Map {
+							v.Set(reflect.MakeMap(st))
+						}
+						extra = v.Interface()
+					}
+					if r.Chance(1, 2) {
+						c.Args = append(c.Args, extra)
+					} else {
+						c.Args = append([]any{extra}, c.Args...)
+					}
+					c.Note = append(c.Note, "arg-shadow-added")
+					break
+				}
+			}
 		case 0:
 			if len(c.Args) > 0 {
 				i := r.Intn(len(c.Args))
